@@ -33,8 +33,8 @@ ASSUMPTIONS = [
     "set.pop / popitem may return any member",
 ]
 REQUIRED_TAGS = {
-    "quick": ["mixin-on-nonempty", "op:setq.and", "op:setq.or", "op:list.reverse", "op:set.update", "map:assign-self", "map:popitem"],
-    "thorough": ["mixin-on-nonempty", "op:setq.and", "op:setq.or", "op:list.reverse", "op:set.update", "map:assign-self", "map:popitem"],
+    "quick": ["failed-op:list.extend", "failed-op:list.setslice", "map:failed-update", "view-operand:set.ixor:other", "view-operand:set.update:self", "view-operand:list.extend:other", "index-object:list.pop", "mixin-on-nonempty", "op:setq.and", "op:setq.or", "op:list.reverse", "op:set.update", "map:assign-self", "map:popitem"],
+    "thorough": ["failed-op:list.extend", "failed-op:list.setslice", "map:failed-update", "view-operand:set.ixor:other", "view-operand:set.update:self", "view-operand:list.extend:other", "index-object:list.pop", "mixin-on-nonempty", "op:setq.and", "op:setq.or", "op:list.reverse", "op:set.update", "map:assign-self", "map:popitem"],
 }
 PREFIXES = ("refine:", "forest:")
 c03_uuid.ID_OF[PREFIXES] = "C16"
